@@ -7,6 +7,10 @@ Import only after mc.build.activate() (imports asynq at module top).
 A configuration (JSON-able dict) selects one decorated target:
 
   {"fam": "alru",  "target": "function"|"method", "maxsize": 1..3, "key": "default"|"norm"|"coarse", "body": "imm"|"block"}
+  {"fam": "alru",  "target": "function", "sig": "v"|"r", "maxsize": .., "key": "default", "body": ..}
+        var-keyword signature classes v(a, b=0, **opts) and r(a, *rest, **opts): extra keywords (and extra positionals)
+        are part of the normalised arguments; calls only (no together / re-entry operations)
+  {"fam": "acpi",  "sig": "abk", "body": ..}   per-instance method w(self, a, b=0, **opts), same menu as v
   {"fam": "acpi",  "sig": "ab"|"ac"|"abc", "body": "imm"|"block"}     ("abc" = p(self, a, b=2, *, c=0), thorough tier only)
   {"fam": "alazy", "ttl": 0|5, "body": "imm"|"block" [, "start": first clock value (default 1000000)]}
 
@@ -316,17 +320,91 @@ def _twin_z(tag):
     return imm, block
 
 
+def _opts(d):
+    return tuple(sorted(d.items()))
+
+
+def _var_bodies():
+    """bodies of the var-keyword signature classes; the run record shows every argument the body received"""
+    def v_imm(a, b=0, **opts):
+        rec = ("v", a, b, _opts(opts))
+        w = CUR
+        w.runs.append(rec)
+        if a == RAISE_A and b == RAISE_2ND:
+            raise HErr(rec)
+        return rec
+
+    def v_block(a, b=0, **opts):
+        w = CUR
+        rec = ("v", a, b, _opts(opts))
+        w.runs.append(rec)
+        got = yield CItem(w, rec)
+        if got != ("item", rec):
+            w.bad.append("batch item delivered %r" % (got,))
+        if a == RAISE_A and b == RAISE_2ND:
+            raise HErr(rec)
+        return rec
+
+    def w_imm(self, a, b=0, **opts):
+        rec = ("w", self.slot, a, b, _opts(opts))
+        w = CUR
+        w.runs.append(rec)
+        if a == RAISE_A and b == RAISE_2ND:
+            raise HErr(rec)
+        return rec
+
+    def w_block(self, a, b=0, **opts):
+        w = CUR
+        rec = ("w", self.slot, a, b, _opts(opts))
+        w.runs.append(rec)
+        got = yield CItem(w, rec)
+        if got != ("item", rec):
+            w.bad.append("batch item delivered %r" % (got,))
+        if a == RAISE_A and b == RAISE_2ND:
+            raise HErr(rec)
+        return rec
+
+    def r_imm(a, *rest, **opts):
+        rec = ("r", a, rest, _opts(opts))
+        w = CUR
+        w.runs.append(rec)
+        if a == RAISE_A and rest[:1] == (RAISE_2ND,):
+            raise HErr(rec)
+        return rec
+
+    def r_block(a, *rest, **opts):
+        w = CUR
+        rec = ("r", a, rest, _opts(opts))
+        w.runs.append(rec)
+        got = yield CItem(w, rec)
+        if got != ("item", rec):
+            w.bad.append("batch item delivered %r" % (got,))
+        if a == RAISE_A and rest[:1] == (RAISE_2ND,):
+            raise HErr(rec)
+        return rec
+
+    out = {}
+    for fn in (v_imm, v_block, w_imm, w_block, r_imm, r_block):
+        tag, kind = fn.__name__.split("_")
+        fn.__name__ = fn.__qualname__ = tag
+        out[(tag, kind)] = fn
+    return out
+
+
+VAR_SIGS = ("v", "w", "r")
+
 # the second function of a "pair" configuration (same signature as its twin, values tagged with its own name)
 TWIN = {"f": "g", "m": "k", "z": "y"}
 g_imm, g_block = _twin_f("g")
 k_imm, k_block = _twin_m("k")
 y_imm, y_block = _twin_z("y")
 
-BODIES = {("g", "imm"): g_imm, ("g", "block"): g_block, ("k", "imm"): k_imm, ("k", "block"): k_block,
+BODIES = dict(_var_bodies())
+BODIES.update({("g", "imm"): g_imm, ("g", "block"): g_block, ("k", "imm"): k_imm, ("k", "block"): k_block,
           ("y", "imm"): y_imm, ("y", "block"): y_block,
           ("f", "imm"): f_imm, ("f", "block"): f_block, ("m", "imm"): m_imm, ("m", "block"): m_block,
           ("n", "imm"): n_imm, ("n", "block"): n_block, ("p", "imm"): p_imm, ("p", "block"): p_block,
-          ("z", "imm"): z_imm, ("z", "block"): z_block}
+          ("z", "imm"): z_imm, ("z", "block"): z_block})
 
 
 class HostBase(object):
@@ -412,6 +490,23 @@ FORMS = ("sync", "asynq-value")
 def _spellings(sig):
     """every way of writing the call, simplest first: (args, kwargs) without self"""
     out = []
+    if sig in ("v", "w"):
+        # x(a, b=0, **opts): all named parameters positional (with and without extra keywords), b defaulted / spelled
+        # by keyword with an extra keyword, a by keyword, and the other value of b (a=2, b=1 raises)
+        for a in A_VALUES:
+            if sig == "w" and a != A_VALUES[0]:
+                # the per-instance cache is unbounded (2 instances x every key): the second value of a only plain
+                out += [((a,), {}), ((a, 1), {})]
+                continue
+            out += [((a,), {}), ((a, 0), {}), ((a, 0), {"x": 1}), ((a, 0), {"x": 2}), ((a,), {"x": 1}),
+                    ((a,), {"b": 0, "x": 1}), ((), {"a": a, "x": 1}), ((a, 1), {})]
+        return out
+    if sig == "r":
+        # x(a, *rest, **opts): extra positionals and extra keywords (a=2 with rest[0]=1 raises)
+        for a in A_VALUES:
+            out += [((a,), {}), ((a, 1), {}), ((a, 1, 2), {}), ((a,), {"x": 1}), ((a, 1), {"x": 1}), ((a, 1), {"x": 2}),
+                    ((), {"a": a}), ((), {"a": a, "x": 1})]
+        return out
     for a_kw in (False, True):
         for a in A_VALUES:
             if sig in ("f", "m", "p"):
@@ -464,6 +559,8 @@ def _call_ops(sig, slots, refkey, tag=None, unit=0, reduced=False, forms=(0, 1))
         for args, kwargs in _spellings(sig):
             if reduced and not _reduced(args, kwargs):
                 continue
+            if reduced == "tiny" and not (args[:1] == (1,) or kwargs.get("a") == 1 or (args[:1] == (2,) and kwargs)):
+                continue  # x(1), x(1, b=1), x(a=1) and the raising x(2, b=1)
             for form in forms:
                 op = Op("call")
                 op.unit = unit
@@ -479,9 +576,15 @@ def _call_ops(sig, slots, refkey, tag=None, unit=0, reduced=False, forms=(0, 1))
                     ba = s.bind(slot, *args, **kwargs)
                 ba.apply_defaults()
                 op.names = tuple(params)
-                op.norm = tuple(ba.arguments[p] for p in params)
+                # (a **opts mapping becomes its sorted item tuple, *rest is a tuple already: the full argument mapping)
+                op.norm = tuple(_opts(ba.arguments[p]) if isinstance(ba.arguments[p], dict) else ba.arguments[p] for p in params)
                 op.value = (tag,) + op.norm
-                second = ba.arguments["b"] if "b" in ba.arguments else ba.arguments["c"]
+                if "b" in ba.arguments:
+                    second = ba.arguments["b"]
+                elif "c" in ba.arguments:
+                    second = ba.arguments["c"]
+                else:
+                    second = ba.arguments["rest"][0] if ba.arguments["rest"] else None
                 op.raises = ba.arguments["a"] == RAISE_A and second == RAISE_2ND
                 op.key = refkey(op)
                 op.shape = (len(args), tuple(sorted(kwargs)))
@@ -498,7 +601,16 @@ def _call_ops(sig, slots, refkey, tag=None, unit=0, reduced=False, forms=(0, 1))
                     ft.append("kw-spelling")
                 else:
                     ft.append("positional-spelling")
-                if (len(args) > 1 and args[1] == B_DEFAULT) or kwargs.get("b") == B_DEFAULT or \
+                if sig in VAR_SIGS:
+                    if any(k not in params for k in kwargs):
+                        ft.append("extra-keyword")
+                    if sig == "r" and len(args) > 1:
+                        ft.append("extra-positional")
+                    if sig != "r" and ((len(args) > 1 and args[1] == 0) or kwargs.get("b") == 0):
+                        ft.append("default-passed")
+                    if sig != "r" and len(args) == 2:
+                        ft.append("all-named-positional")
+                elif (len(args) > 1 and args[1] == B_DEFAULT) or kwargs.get("b") == B_DEFAULT or \
                         (sig == "n" and kwargs.get("c") == C_DEFAULT):
                     ft.append("default-passed")
                 if "c" in kwargs:
@@ -572,7 +684,7 @@ def _extra_ops(ops, units, slots, second, block, pair):
     menus = {(u, sl): _overlap_menu(ops, u, sl, second) for u in units for sl in slots}
     if not pair:
         for u in units:
-            for sl in slots:
+            for sl in slots[:1]:  # on the first instance; the second one takes part in the cross-instance pairs below
                 m = menus[(u, sl)]
                 if block:
                     # same key same spelling, same key other spelling, different keys (a / b differ), with a raising twin
@@ -786,7 +898,7 @@ class AlruRT(Runtime):
     def __init__(self, cfg):
         Runtime.__init__(self, cfg)
         self.maxsize = cfg["maxsize"]
-        self.sig = "f" if cfg["target"] == "function" else "m"
+        self.sig = cfg.get("sig") or ("f" if cfg["target"] == "function" else "m")
         self.pair = bool(cfg.get("pair"))
         self.tags = [self.sig] + ([TWIN[self.sig]] if self.pair else [])
         self.keykind = cfg["key"]
@@ -795,10 +907,13 @@ class AlruRT(Runtime):
                             "default-key" if self.key_fn is None else "keyfn-" + self.keykind]
         if self.pair:
             self.base_feats.append("shared-decorator")
-        self.slots = (None,) if self.sig == "f" else ((0,) if self.pair else (0, 1))
+        self.slots = (None,) if cfg["target"] == "function" else ((0,) if self.pair else (0, 1))
+        if self.sig in VAR_SIGS:
+            self.base_feats.append("var-keyword-signature")
         for u, tag in enumerate(self.tags):
             self.ops += _call_ops(self.sig, self.slots, self._refkey, tag=tag, unit=u, reduced=self.pair)
-        self.ops += _extra_ops(self.ops, list(range(len(self.tags))), list(self.slots), "b", self.block, self.pair)
+        if self.sig not in VAR_SIGS:
+            self.ops += _extra_ops(self.ops, list(range(len(self.tags))), list(self.slots), "b", self.block, self.pair)
         self.bodies = [BODIES[(tag, cfg["body"])] for tag in self.tags]
         self._last_ent = None
 
@@ -815,7 +930,7 @@ class AlruRT(Runtime):
         decorator = _tools.alru_cache(maxsize=self.maxsize, key_fn=self.key_fn)
         decos = [decorator(_asynq()(b)) for b in self.bodies]
         self.caches = [_closure_cell(d.fn, "cache") for d in decos]
-        if self.sig == "f":
+        if self.slots == (None,):
             self.targets = decos
             self.insts = None
         else:
@@ -891,6 +1006,8 @@ class AlruRT(Runtime):
     def _check_content(self, op, refs, raised, evicted, unit, ordered=False):
         """cache content against the reference caches `refs` (explicit parts of the statement: no entry after a
         raise, <= maxsize, LRU victim); `ordered` also compares the recency order"""
+        if not self.counting and not ordered and op.kind != "both":
+            return []  # replayed prefix step: judged when it was the last step of its own history
         for u, tag in enumerate(self.tags):
             cache = self.caches[u]
             if cache is None:
@@ -1054,7 +1171,7 @@ class AlruRT(Runtime):
 class AcpiRT(Runtime):
     def __init__(self, cfg):
         Runtime.__init__(self, cfg)
-        self.sig = {"ab": "m", "ac": "n", "abc": "p"}[cfg["sig"]]
+        self.sig = {"ab": "m", "ac": "n", "abc": "p", "abk": "w"}[cfg["sig"]]
         self.pair = bool(cfg.get("pair"))
         self.tags = [self.sig] + ([TWIN[self.sig]] if self.pair else [])
         self.base_feats += ["method", "sig:" + cfg["sig"], "default-key"]
@@ -1062,9 +1179,13 @@ class AcpiRT(Runtime):
             self.base_feats.append("shared-decorator")
         for u, tag in enumerate(self.tags):
             # (the pair configuration uses the synchronous calling form only; both forms are covered without "pair")
-            self.ops += _call_ops(self.sig, (0, 1), lambda op: op.norm[1:], tag=tag, unit=u, reduced=self.pair,
-                                  forms=(0,) if self.pair else (0, 1))
-        extra = _extra_ops(self.ops, list(range(len(self.tags))), [0, 1], "c" if self.sig == "n" else "b", self.block, self.pair)
+            self.ops += _call_ops(self.sig, (0, 1), lambda op: op.norm[1:], tag=tag, unit=u,
+                                  reduced="tiny" if self.pair else False, forms=(0,) if self.pair else (0, 1))
+        extra = []
+        if self.sig in VAR_SIGS:
+            self.base_feats.append("var-keyword-signature")
+        else:
+            extra = _extra_ops(self.ops, list(range(len(self.tags))), [0, 1], "c" if self.sig == "n" else "b", self.block, self.pair)
         for slot in (0, 1):
             op = Op("del")
             op.slot = slot
@@ -1267,6 +1388,8 @@ class AcpiRT(Runtime):
         return self._content_check(op, exp[0] == "err")
 
     def _content_check(self, op, raised):
+        if not self.counting:
+            return []  # replayed prefix step: judged when it was the last step of its own history
         for u, tag in enumerate(self.tags):
             per, stale = self._real_content(u)
             if stale:
